@@ -360,6 +360,12 @@ theorem ascii_partial (uid fc : Nat) (data : Bytes) (k : Nat) (hu : uid < 256) (
 
 def NoDelim (l : Bytes) : Prop := ∀ c ∈ l, c ≠ 0x7B ∧ c ≠ 0x7D
 
+/-- no END delimiter: all the binary receiver needs of the bytes between the braces (a START delimiter 0x7B there — as unit
+    id or in the CRC, which are sent raw — is an ordinary byte to it) -/
+def NoEnd (l : Bytes) : Prop := ∀ c ∈ l, c ≠ 0x7D
+
+theorem NoDelim.noEnd {l : Bytes} (h : NoDelim l) : NoEnd l := fun c hc => (h c hc).2
+
 def binBody (uid fc : Nat) (data : Bytes) : Bytes :=
   [uid, fc] ++ data ++ [Impl.computeCRC ([uid, fc] ++ data) / 256, Impl.computeCRC ([uid, fc] ++ data) % 256]
 
@@ -395,7 +401,7 @@ theorem findByte_after (b : Nat) (l rest : Bytes) (h : ∀ c ∈ l, c ≠ b) : f
 theorem binFrame_length (uid fc : Nat) (data : Bytes) : (binFrame uid fc data).length = data.length + 6 := by
   simp [binFrame, binBody]
 
-theorem binary_whole (uid fc : Nat) (data rest : Bytes) (hb : NoDelim (binBody uid fc data)) :
+theorem binary_whole (uid fc : Nat) (data rest : Bytes) (hb : NoEnd (binBody uid fc data)) :
     binaryStep (binFrame uid fc data ++ rest) = .frame (binFrame uid fc data).length (fc :: data) uid 0 0 := by
   have hlen := binFrame_length uid fc data
   have hc := Props.Checksum.crc_lt ([uid, fc] ++ data)
@@ -409,7 +415,7 @@ theorem binary_whole (uid fc : Nat) (data rest : Bytes) (hb : NoDelim (binBody u
     simp only [List.mem_append, List.mem_cons, List.not_mem_nil, or_false] at hcm
     rcases hcm with rfl | hcm
     · decide
-    · exact (hb c hcm).2
+    · exact hb c hcm
   have h7d : findByte 0x7D (binFrame uid fc data ++ rest) = some (data.length + 5) := by
     have : binFrame uid fc data ++ rest = ([0x7B] ++ binBody uid fc data) ++ 0x7D :: rest := by simp [binFrame]
     rw [this, findByte_after 0x7D _ rest hpre]
@@ -442,7 +448,7 @@ theorem binary_whole (uid fc : Nat) (data rest : Bytes) (hb : NoDelim (binBody u
     rw [this]; simp [Impl.checkCRC]
   rw [if_pos hck, if_pos (by omega), hlen]
 
-theorem binary_partial (uid fc : Nat) (data : Bytes) (k : Nat) (hb : NoDelim (binBody uid fc data))
+theorem binary_partial (uid fc : Nat) (data : Bytes) (k : Nat) (hb : NoEnd (binBody uid fc data))
     (hk : k < (binFrame uid fc data).length) :
     binaryStep ((binFrame uid fc data).take k) = .wait := by
   have hlen := binFrame_length uid fc data
@@ -466,7 +472,7 @@ theorem binary_partial (uid fc : Nat) (data : Bytes) (k : Nat) (hb : NoDelim (bi
       simp only [List.mem_append, List.mem_cons, List.not_mem_nil, or_false] at hm
       rcases hm with rfl | hm
       · decide
-      · exact (hb c hm).2
+      · exact hb c hm
     rw [h7d]
 
 
